@@ -273,3 +273,54 @@ func vh_C05_bmc_gaps() {
 	vobserve("nblocks", uint64(len(blocks)))
 	vcover("end")
 }
+
+// C05.L6: the SACK an association emits tells the truth. Bit positions concrete, word
+// positions symbolic (as in vh_C05_bmc_gaps): two chunks received above a hole, one of
+// them (or an old one) received again; the emitted SACK, decoded from the wire, carries
+// the cumulative TSN, gap blocks covering exactly the TSNs held, and the duplicate.
+func vh_C05_L6_emitted_sack_truth() {
+	a, _ := vNewAssoc()
+	a.payloadQueue.init(nondetU32()&^63 | []uint32{0, 62, 63}[vPick(3)])
+	cum := a.peerLastTSN()
+	offs := []uint32{2, 3, 4, 65, 66, 130}
+	i1 := vPick(len(offs) - 1)
+	i2 := i1 + 1 + vPick(len(offs)-1-i1)
+	o1, o2 := offs[i1], offs[i2]
+	vassert(vDeliver(a, vDataChunk(a, cum+o1, 4, true, 1)) == nil, "DATA ok")
+	vassert(vDeliver(a, vDataChunk(a, cum+o2, 4, true, 1)) == nil, "DATA ok")
+	dupOff := []uint32{o1, o2, 0}[vPick(3)] // a held TSN again, or one at the cumulative point
+	vassert(vDeliver(a, vDataChunk(a, cum+dupOff, 4, true, 1)) == nil, "DATA ok")
+	var sack *chunkSelectiveAck
+	for _, raw := range vWriterWake(a) {
+		p := vDecode(raw)
+		for _, c := range p.chunks {
+			if s, ok := c.(*chunkSelectiveAck); ok {
+				sack = s
+			}
+		}
+	}
+	vassert(sack != nil, "a SACK is emitted at once (gap and duplicate)")
+	if sack == nil {
+		return
+	}
+	vassert(sack.cumulativeTSNAck == cum, "the cumulative ack does not cover TSNs that were not received")
+	in := func(off uint32) bool {
+		for _, b := range sack.gapAckBlocks {
+			if off >= uint32(b.start) && off <= uint32(b.end) {
+				return true
+			}
+		}
+		return false
+	}
+	vassert(in(o1) && in(o2), "every TSN accepted so far is reported")
+	for _, off := range []uint32{1, o1 - 1, o1 + 1, o2 - 1, o2 + 1} {
+		if off != o1 && off != o2 {
+			vassert(!in(off), "gap blocks name only TSNs that were received")
+		}
+	}
+	vassert(len(sack.duplicateTSN) == 1 && sack.duplicateTSN[0] == cum+dupOff, "the duplicate is reported once, with its TSN")
+	vcover("end")
+}
+
+// C05.L6b: SACK wire format with gap blocks and duplicates together (same obligation as vh_C12_L1).
+func vh_C05_L6_sack_wire_roundtrip() { vh_C12_L1_roundtrip_sack_fwd() }
